@@ -24,7 +24,7 @@ package verifsim
 import "runtime"
 
 // MaxTasks bounds the number of simulated caller goroutines in one run.
-const MaxTasks = 16
+const MaxTasks = 64
 
 // Modes.
 const (
